@@ -22,6 +22,7 @@ type pspec struct {
 	blk               string // "" | the call of this pool that blocks and ignores every context (gen3.go)
 	rs                string // "" (once) | step<ms> | past: the tokens of the rps schedule (use.go)
 	do                int    // 1 = discard_overflow
+	rp                string // "" | <kind>.<k>.<tail>: a provider of the repo's own over a written source (prov.go)
 }
 
 func basePool() pspec {
@@ -51,6 +52,9 @@ func (p pspec) String() string {
 	}
 	if p.do != 0 {
 		s += ",do:1"
+	}
+	if p.rp != "" {
+		s += ",rp:" + p.rp
 	}
 	return s
 }
@@ -443,10 +447,18 @@ func gen(r *rand.Rand, tier string) []string {
 		instrStart()
 	}
 	var out []string
+	// every other case is run by a caller that does NOT cancel its own context after Engine.Run returned (nc=1):
+	// Engine.Wait must return all the same (the engine's deferred cancel reaches every pool)
+	ncExtra := func(extra string, n int) string {
+		if n%2 == 0 || strings.Contains(extra, "cli=") {
+			return extra
+		}
+		return strings.TrimSpace(extra + " nc=1")
+	}
 	emit := func(pls []planT) {
-		for _, pl := range pls {
+		for i, pl := range pls {
 			for k := 0; k < repsOf(pl.weight, tier); k++ {
-				out = append(out, lineX(pl.cancel, pl.extra, k, pl.pools...))
+				out = append(out, lineX(pl.cancel, ncExtra(pl.extra, i+k), k, pl.pools...))
 			}
 		}
 	}
@@ -454,16 +466,23 @@ func gen(r *rand.Rand, tier string) []string {
 	emit(plainRound2())
 	emit(plainRound3())
 	emit(plainRound4())
+	emit(plainRound6())
 	for i := 0; i < nrand/3; i++ {
 		pl := randomBlk(r)
 		for k := 0; k < 2; k++ {
-			out = append(out, line(pl.cancel, k, pl.pools...))
+			out = append(out, lineX(pl.cancel, ncExtra("", i+k), k, pl.pools...))
+		}
+	}
+	for i := 0; i < nrand/2; i++ {
+		pl := randomRp(r)
+		for k := 0; k < 2; k++ {
+			out = append(out, lineX(pl.cancel, ncExtra("", i+k), k, pl.pools...))
 		}
 	}
 	for i := 0; i < nrand; i++ {
 		pl := randomPlan(r)
 		for k := 0; k < randReps; k++ {
-			out = append(out, line(pl.cancel, k, pl.pools...))
+			out = append(out, lineX(pl.cancel, ncExtra("", i+k), k, pl.pools...))
 		}
 	}
 	if tier == "thorough" {
@@ -503,7 +522,7 @@ func class(input, obs string) string {
 				tags = append(tags, t)
 			case strings.HasSuffix(t, ".ctxw"):
 				tags = append(tags, t)
-			case strings.HasPrefix(t, "rg:") || strings.HasPrefix(t, "su:") || strings.HasPrefix(t, "pv:") || strings.HasPrefix(t, "blk:") || strings.HasPrefix(t, "rs:") || strings.HasPrefix(t, "do:"):
+			case strings.HasPrefix(t, "rg:") || strings.HasPrefix(t, "su:") || strings.HasPrefix(t, "pv:") || strings.HasPrefix(t, "blk:") || strings.HasPrefix(t, "rs:") || strings.HasPrefix(t, "do:") || strings.HasPrefix(t, "rp:"):
 				tags = append(tags, t)
 			}
 		}
